@@ -24,6 +24,9 @@ def extra(tier):
     # VJP differentiated again, incl. w.r.t. its own cotangent at zero (value-dependent shortcuts on a traced cotangent)
     enga.init()
     res = list(res) + [r for r in lapack_probe.run(runner.SEED)]
+    from . import misc_probe
+
+    res += misc_probe.run_nested(runner.SEED)
     return res
 
 
